@@ -44,7 +44,8 @@ def gen_cases(tier, seed):
         for mode in ("no_grad", "non-requiring", "detached-mix", "no_grad-with-parameter", "inside-retain_grads", "no_grad-linear", "changing-scalars",
                      "nested-no_grad", "backward-inside-no_grad",
                      "matmul-chain", "matmul-chain-no_grad-parameter", "dropout-noise", "frozen-net-rollout",
-                     "concat-rolling-window", "stack-rolling-window", "linear-nobias-plain", "linear-nobias-frozen-no_grad"):
+                     "concat-rolling-window", "stack-rolling-window", "linear-nobias-plain", "linear-nobias-frozen-no_grad",
+                     "catalogue-plain", "catalogue-no_grad"):
             cases.append({"kind": "untracked", "n": n, "mode": mode, "seed": int(rng.integers(2 ** 31))})
     cases.append({"kind": "weakref", "seed": 0})
     for n in (300, 1000) + ((3000,) if tier == "thorough" else ()):
@@ -252,11 +253,41 @@ def run_case(ns, mon, c):
                          "linear-nobias-plain", "linear-nobias-frozen-no_grad"):
             w = T(np.full((1, 8), 0.125))
         samples = []
+        mem_samples = []
+        catalogue = None
+        if c["mode"].startswith("catalogue"):
+            # the carried value (a *named* tensor, like every layer parameter) passes through a rotating catalogue of ops - views, element-wise ops,
+            # reductions, frozen bias-free layers, pooling, inference-mode batch norm - none of which records anything when nothing requires grad
+            nn_ = ns.nn
+            w = T(np.full((1, 8), 0.125), name="state")
+            c1 = nn_.Conv1d(1, 1, 3, padding=1, bias=False); c1.freeze()
+            c1b = nn_.Conv1d(1, 1, 3, padding=1); c1b.freeze()
+            c2 = nn_.Conv2d(1, 1, 3, padding=1, bias=False); c2.freeze()
+            bn_ = nn_.BatchNorm1d(8); bn_.eval(); bn_.freeze()
+            lin_ = nn_.Linear(8, 8); lin_.freeze()
+            kconst = T(np.array([[[0.25, 0.5, 0.25]]]), name="kernel")
+            flat_ = nn_.Flatten()
+            pool_ = [nn_.MaxPool1d(1), nn_.AvgPool1d(1), nn_.MaxPool2d(1), nn_.AvgPool2d(1)]
+            catalogue = [
+                lambda v: v.transpose(0, 1).transpose(0, 1), lambda v: v.reshape((8, 1)).reshape((1, 8)), lambda v: v.movedim(0, 1).movedim(1, 0),
+                lambda v: v.flatten().unsqueeze(0), lambda v: v.unsqueeze(0).squeeze(0), lambda v: v[:, ::-1], lambda v: v.clone(), lambda v: sg.relu(v) + 0.01,
+                lambda v: sg.tanh(v), lambda v: sg.sigmoid(v), lambda v: sg.softmax(v, 1), lambda v: sg.log_softmax(v, 1) * -0.1, lambda v: sg.selu(v), lambda v: sg.leaky_relu(v, 0.1),
+                lambda v: c1(v.reshape((1, 1, 8))).reshape((1, 8)), lambda v: c1b(v.reshape((1, 1, 8))).reshape((1, 8)), lambda v: sg.conv1d(v.reshape((1, 1, 8)), kconst, None, 1, 1).reshape((1, 8)),
+                lambda v: c2(v.reshape((1, 1, 2, 4))).reshape((1, 8)), lambda v: pool_[0](v.reshape((1, 1, 8))).reshape((1, 8)), lambda v: pool_[1](v.reshape((1, 1, 8))).reshape((1, 8)),
+                lambda v: pool_[2](v.reshape((1, 1, 2, 4))).reshape((1, 8)), lambda v: pool_[3](v.reshape((1, 1, 2, 4))).reshape((1, 8)), lambda v: bn_(v), lambda v: sg.tanh(lin_(v)),
+                lambda v: flat_(v.reshape((1, 2, 4))), lambda v: sg.concat([v[:, :4], v[:, 4:]], 1), lambda v: sg.stack(list(sg.unbind(v, 1)), 1), lambda v: v - v.mean(1, keepdims=True),
+                lambda v: v / (v.sum() + 10.0), lambda v: sg.tanh(v @ Wl), lambda v: sg.addmm(v, v, Wl) * 0.5, lambda v: (v * v + 1.0).sqrt() - 1.0, lambda v: (v.exp() + 1.0).log() * 0.5,
+                lambda v: v.max(1, keepdims=True) - v, lambda v: sg.unfold(v.reshape((1, 1, 2, 4)), (1, 1)).reshape((1, 8)), lambda v: sg.unfold_dim(v, 1, 8, 1).reshape((1, 8)) if hasattr(sg, "unfold_dim") else v,
+                lambda v: 1.0 - v, lambda v: 2.0 ** v - 1.0, lambda v: -v, lambda v: v ** 2,
+            ]
         losses = [(par * par).sum() * float(k_ + 1) for k_ in range(10)] if c["mode"] == "backward-inside-no_grad" else []     # built before the block, kept alive
         gc.collect()
         base = mon.live_count()
 
         def body(w):
+            if catalogue is not None:
+                k3 = body.k3 = getattr(body, "k3", -1) + 1
+                return catalogue[k3 % len(catalogue)](w)
             if c["mode"] == "detached-mix":
                 return (w * 0.999 + gfix * 0.001).detach() * 1.0
             if c["mode"] == "no_grad-with-parameter":
@@ -302,6 +333,21 @@ def run_case(ns, mon, c):
                     w = body(w)
                     if (i + 1) % step == 0:
                         samples.append(mon.live_count() - base)
+        elif catalogue is not None:
+            import tracemalloc, contextlib
+            with (sg.no_grad() if c["mode"] == "catalogue-no_grad" else contextlib.nullcontext()), np.errstate(all="ignore"):
+                for i in range(2 * len(catalogue)):          # warm-up: every op once (lazy imports, caches filled at first use)
+                    w = body(w)
+                gc.collect()
+                base = mon.live_count()
+                tracemalloc.start()
+                for i in range(n):
+                    w = body(w)
+                    if (i + 1) % step == 0:
+                        gc.collect()
+                        samples.append(mon.live_count() - base)
+                        mem_samples.append(tracemalloc.get_traced_memory()[0])
+                tracemalloc.stop()
         else:
             for i in range(n):
                 w = body(w)
@@ -311,11 +357,20 @@ def run_case(ns, mon, c):
         counters["live_count_samples"] = len(samples)
         if w.requires_grad or w.grad_fn is not None:
             viol.append(V("untracked:result-tracks-history", "a result of an untracked computation requires grad / has a grad_fn"))
+        if mem_samples:
+            counters["traced_memory_samples"] = len(mem_samples)
+            grow = mem_samples[-1] - mem_samples[len(mem_samples) // 2 - 1]           # bytes allocated and still held, second half of the loop
+            iters = n - (len(mem_samples) // 2) * step
+            # (interpreter / NumPy caches fill up during the first few thousand updates - measured on the unchanged tree: ~50 kB, flat after ~15000
+            #  updates - so only loops of >= 20000 updates are judged, on their second half)
+            if n >= 20000 and grow > 4096 + 1.0 * iters:
+                viol.append(V(f"untracked:memory-grows:{c['mode']}", f"memory held after an untracked loop grows with its length ({c['mode']}): {grow} bytes over the last {iters} updates "
+                              f"(traced bytes at ten points: {mem_samples})", n=n))
         if max(samples) - min(samples) > 8 or max(samples) > 40:
             viol.append(V(f"untracked:live-tensors-grow:{c['mode']}", f"live Tensor objects grow with the length of an untracked loop ({c['mode']}): samples {samples}",
                           n=n))
         mon.drain()
-        return {"key": ("untracked", c["mode"], n), "viol": viol, "counters": counters, "note": f"live-tensor deltas over {n} untracked updates ({c['mode']}): {samples}",
+        return {"key": ("untracked", c["mode"], n), "viol": viol, "counters": counters, "note": f"live-tensor deltas over {n} untracked updates ({c['mode']}): {samples}" + (f"; traced bytes {mem_samples}" if mem_samples else ""),
                 "cover": {"scenarios": [f"untracked:{c['mode']}"]}}
     elif kind == "detach-segments":
         # truncated back-propagation: tracked segments separated by detach(); neither memory nor the work of a segment's backward may grow
